@@ -8,9 +8,11 @@
    masters; versions_of m st = what master.versions returns; hist_of m st =
    the ghost list of the states master m's row went through, extended by each
    successful update.  Column a of the master is UNIQUE, so the database can
-   refuse a write that passed validation.  vguard ops = in the history no
-   update (assignment, set, restore) is refused by the DATABASE; updates
-   refused by validation, failing creations (also refused by the database),
+   refuse a write that passed validation; column c is a ForeignKey (an
+   integer column here).  vguard ops = in the history no update (assignment,
+   set, restore) is refused AFTER its RowUpdateSignal went out and its values
+   passed validation, i.e. by the DATABASE or by set() for an unknown keyword
+   (VSetBad); updates refused by validation, failing creations (also refused by the database),
    restores of unknown versions, unknown masters may all occur. *)
 From Coq Require Import List ZArith NArith Bool.
 From Model Require Import Events Versioning.
@@ -36,6 +38,15 @@ Theorem C20_db_refused_update_leaves_version_refuted :
     /\ m_tbl (w_post w) = m_tbl (w_pre w)
     /\ length (versions_of 2 (w_post w)) = S (length (versions_of 2 (w_pre w))).
 Proof. exact (@refused_witness). Qed.
+
+(* set() refused for an unknown keyword (TypeError) after its values passed
+   validation: the same -- row untouched, one more version, history equation broken *)
+Theorem C20_keyword_refused_set_leaves_version_refuted :
+  exists w, In w (vrun vinit ops_kwrefused) /\ w_out w = VExn XTypeError
+    /\ m_tbl (w_post w) = m_tbl (w_pre w)
+    /\ length (versions_of 1 (w_post w)) = S (length (versions_of 1 (w_pre w)))
+    /\ map v_vals (versions_of 1 (w_post w)) ++ [[(CA, VInt 1); (CB, VNull); (CC, VInt 7)]] <> hist_of 1 (w_post w).
+Proof. exact (@kwrefused_witness). Qed.
 
 (* Histories in which the database refuses no update -- ill-typed updates
    included: after every step, for every master, the values of its versions
@@ -86,7 +97,7 @@ Definition ex_ops : list vop :=
   [VCreate [(CA, VInt 1)]; VCreate [(CA, VInt 2); (CB, VStr [120%N])]; VAssign 1 CA (VInt 5);
    VSet 2 [(CC, VInt 3); (CB, VStr [121%N; 121%N])]; VAssign 1 CB (VStr [113%N]); VRestore 1; VRestore 1;
    VSet 2 []; VRestore 2; VCreate []; VRestore 9; VAssign 7 CA (VInt 0); VAssign 1 CA (VStr [120%N]);
-   VSet 2 [(CB, VInt 3); (CC, VInt 1)]; VCreate [(CA, VInt 2)]].
+   VSet 2 [(CB, VInt 3); (CC, VInt 1)]; VCreate [(CA, VInt 2)]; VSetBad 1 [(CB, VInt 1)]; VSetBad 9 []].
 Definition ex_final : vstate := vfinal vinit ex_ops.
 
 Example C20_guard_nonvacuous : vguard ex_ops = true.
@@ -94,7 +105,7 @@ Proof. vm_compute. reflexivity. Qed.
 Example C20_outcomes :
   map w_out (vrun vinit ex_ops)
   = [VDone; VDone; VDone; VDone; VDone; VDone; VDone; VDone; VDone; VExn XTypeError; VExn XNotFound; VNoHandle;
-     VExn XInvalid; VExn XInvalid; VExn XDuplicate].
+     VExn XInvalid; VExn XInvalid; VExn XDuplicate; VExn XInvalid; VNoHandle].
 Proof. vm_compute. reflexivity. Qed.
 (* master 1: created (1,-,7); a:=5; b:='q'; restore(v1); restore(v1) again *)
 Example C20_example_history_1 :
@@ -113,6 +124,7 @@ Proof. vm_compute. reflexivity. Qed.
 
 Print Assumptions C20_history_inv_refuted.
 Print Assumptions C20_db_refused_update_leaves_version_refuted.
+Print Assumptions C20_keyword_refused_set_leaves_version_refuted.
 Print Assumptions C20_history_inv_partial.
 Print Assumptions C20_refused_by_validation_changes_nothing.
 Print Assumptions C20_one_version_per_update.
